@@ -213,18 +213,20 @@ def logEntry (id : Nat) (v : View U) (counter : Nat) (withText : Bool) : String 
 /-- decision ↦ (reset, switch target, result: 0 = continue, 1 = return ok, 2 = return err) -/
 def decode (d : Nat) (nsets : List String) (fallible : Bool) : Bool × Option String × Nat :=
   let k := d % 8
-  let tgt := if nsets.isEmpty then none else nsets[(d / 8) % nsets.length]?
+  let tgt := if nsets.isEmpty then none else nsets[((d / 8) % 8) % nsets.length]?
   let k := if fallible then k else (if k = 6 then 2 else if k = 7 then 5 else k)
   let k := if nsets.isEmpty then (if k = 3 then 0 else if k = 4 then 1 else if k = 5 then 2 else if k = 7 then 6 else k) else k
-  match k with
-  | 0 => (false, none, 0)
-  | 1 => (true, none, 0)
-  | 2 => (false, none, 1)
-  | 3 => (false, tgt, 0)
-  | 4 => (true, tgt, 0)
-  | 5 => (false, tgt, 1)
-  | 6 => (false, none, 2)
-  | _ => (false, tgt, 2)
+  let extraReset := (d / 64) % 2 == 1
+  let r : Bool × Option String × Nat := match k with
+    | 0 => (false, none, 0)
+    | 1 => (true, none, 0)
+    | 2 => (false, none, 1)
+    | 3 => (false, tgt, 0)
+    | 4 => (true, tgt, 0)
+    | 5 => (false, tgt, 1)
+    | 6 => (false, none, 2)
+    | _ => (false, tgt, 2)
+  (r.1 || extraReset, r.2.1, r.2.2)
 
 def scripted (id : Nat) (nsets : List String) (withText : Bool) (fallible : Bool) (v : View U) :
     Effect U (Except Nat Nat) :=
